@@ -34,14 +34,14 @@ func (k Keeper) OnRecvPacket(
 		event.Status = types.STATUS_FAILED
 		event.Message = err.Error()
 		_ = ctx.EventManager().EmitTypedEvent(event)
-		return nil
+		return ack
 	}
 	transferAmount, ok := sdk.NewIntFromString(data.Amount)
 	if !ok {
 		event.Status = types.STATUS_FAILED
 		event.Message = "Change data.Amount type to int error"
 		_ = ctx.EventManager().EmitTypedEvent(event)
-		return nil
+		return ack
 	}
 	receiver, _ := sdk.AccAddressFromBech32(data.Receiver)
 	denom, err := types.IBCDenom(packet.GetDestPort(), packet.GetDestChannel(), data.Denom)
@@ -49,14 +49,14 @@ func (k Keeper) OnRecvPacket(
 		event.Status = types.STATUS_FAILED
 		event.Message = err.Error()
 		_ = ctx.EventManager().EmitTypedEvent(event)
-		return nil
+		return ack
 	}
 
 	if !k.IsDenomRegistered(ctx, denom) {
 		event.Status = types.STATUS_FAILED
 		event.Message = fmt.Sprintf("denom %s not registered", denom)
 		_ = ctx.EventManager().EmitTypedEvent(event)
-		return nil
+		return ack
 	}
 	msg := types.NewMsgConvertCoin(
 		sdk.NewCoin(denom, transferAmount),
@@ -70,14 +70,14 @@ func (k Keeper) OnRecvPacket(
 		event.Status = types.STATUS_FAILED
 		event.Message = err.Error()
 		_ = ctx.EventManager().EmitTypedEvent(event)
-		return nil
+		return ack
 	}
 
 	write()
 	ctx.EventManager().EmitEvents(cctx.EventManager().Events())
 	event.Status = types.STATUS_SUCCESS
 	_ = ctx.EventManager().EmitTypedEvent(event)
-	return nil
+	return ack
 }
 
 func (k Keeper) OnAcknowledgementPacket(
